@@ -24,6 +24,7 @@ inductive Target where
   | dead      -- a TCP port that refuses
   | hang      -- a TCP destination that never answers
   | udp       -- the UDP multiplexer
+  | icmp      -- the ICMP multiplexer
   deriving DecidableEq, Repr, Inhabited
 
 inductive TunState where
@@ -34,6 +35,8 @@ inductive TunState where
       half-closed. The tunnel is over when both directions have ended. -/
   | open (clientEnded orphan originEnded : Bool)
   | mux (u : UdpFlows.St)
+  /-- the ICMP multiplexer: no socket of its own (the forwarder's raw sockets are shared) -/
+  | imux
   | closed
   deriving Repr, Inhabited
 
@@ -83,6 +86,9 @@ inductive Op where
   | tunClose (t : Nat) (how : Char)
   | udpUp (t : Nat) (m : UdpFlows.Meta) (n : Nat)
   | udpDown (t : Nat) (m : UdpFlows.Meta) (n : Nat)
+  /-- an echo request of `n` data bytes on ICMP multiplexer `t`; `answered`: it is sent and the
+      reply comes back (false: the forwarder drops it, e.g. an IPv6 peer without IPv6) -/
+  | icmpEcho (t : Nat) (answered : Bool) (n : Nat)
   | adv (ms : Nat)
   deriving Repr
 
@@ -121,6 +127,7 @@ def closeTun (s : St) (t : Nat) : St :=
   match (s.tuns.getD t default).st with
   | .connecting _ | .open _ _ _ => { setTun s t .closed with cells := s.cells.tcpDec }
   | .mux u => { setTun s t .closed with cells := s.cells.udpDelta u { u with socks := [] } }
+  | .imux => setTun s t .closed
   | .closed => s
 
 /-- the client side of session `i` is gone: what each of its tunnels does -/
@@ -133,7 +140,7 @@ def clientGone (s : St) (i : Nat) : St :=
       -- otherwise it lingers until a write towards the client fails or it idles out
       | .open _ _ true => closeTun s t
       | .open ce _ false => setTun s t (.open ce true false)
-      | .mux _ => closeTun s t                     -- the multiplexer's source ends at once
+      | .mux _ | .imux => closeTun s t             -- a multiplexer's source ends at once
       | _ => s                                      -- a pending connect keeps going
     else s) s
 
@@ -167,6 +174,7 @@ def step (c : Cfg) (s : St) : Op → St
       endIfH1 { s with tuns := s.tuns ++ [{ sess := i, st := .closed }] } i
     | .hang => { s with tuns := s.tuns ++ [{ sess := i, st := .connecting s.now }], cells := s.cells.tcpInc }
     | .udp => { s with tuns := s.tuns ++ [{ sess := i, st := .mux (muxInit c s.now) }] }
+    | .icmp => { s with tuns := s.tuns ++ [{ sess := i, st := .imux }] }
   | .up t n =>
     let tn := s.tuns.getD t default
     match tn.st with
@@ -198,11 +206,11 @@ def step (c : Cfg) (s : St) : Op → St
       match tn.st with
       | .open _ _ true => closeTun s t              -- both directions have ended
       | .open _ o false => setTun s t (.open true o false)
-      | .mux _ => closeTun s t
+      | .mux _ | .imux => closeTun s t
       | _ => s
     else
       match tn.st with
-      | .open false _ _ | .mux _ => closeTun s t
+      | .open false _ _ | .mux _ | .imux => closeTun s t
       | .open true _ true => closeTun s t
       -- a reset after the client already ended its stream is noticed only when the endpoint
       -- next writes to it
@@ -216,6 +224,17 @@ def step (c : Cfg) (s : St) : Op → St
     match (s.tuns.getD t default).st with
     | .mux u => stepMux c s t u (.reply m n)
     | _ => s
+  | .icmpEcho t answered n =>
+    -- a datagram counts with its on-the-wire length (8-byte header + data) when the sink took it;
+    -- a dropped one counts nothing
+    let tn := s.tuns.getD t default
+    match tn.st with
+    | .imux =>
+      if answered then
+        let p := protoOf s tn.sess
+        { s with cells := (s.cells.addUp p (8 + n)).addDn p (8 + n) }
+      else s
+    | _ => s
   | .adv ms =>
     let s := { s with now := s.now + ms }
     (List.range s.tuns.length).foldl (fun s t =>
@@ -226,6 +245,7 @@ def step (c : Cfg) (s : St) : Op → St
       | .open _ _ _ =>
         if 2 * c.tcpIdle ≤ ms then endIfH1 (closeTun s t) tn.sess else s
       | .mux u => stepMux c s t u (.adv ms)
+      | .imux => s
       | .closed => s) s
 
 def run (c : Cfg) (s : St) (ops : List Op) : St := ops.foldl (step c) s
